@@ -11,7 +11,10 @@ EXPLANATION = (
     "read that feeds viewBox/width/height/aspect ratio; the `mm` unit and the scale factor are used only when neither width "
     "nor height was supplied; (3) non-contributors: specs, var, config and defaults return no bounding box on every exit; "
     "defs/symbol containers, symbol groups and point elements reset their box to None; generated text is not consulted for "
-    "the box. Undecided: the extent value itself (union over the bbox rules, transform/clip arithmetic, aspect-ratio derivation)."
+    "the box; (4) zero-area content still counts: BoundingBox::intersect yields a box when the intersection has zero width or "
+    "height (comparisons evaluated at equality), so a clipped horizontal/vertical line keeps contributing; (5) a <use>/<reuse> "
+    "carrying only one of x / y is still translated (the translation is reachable with either attribute absent). "
+    "Undecided: the extent value itself (union over the bbox rules, transform/clip arithmetic, aspect-ratio derivation)."
 )
 TRUSTED = ["BoundingBox::expand/round arithmetic"]
 ASSUMPTIONS = []
@@ -25,6 +28,8 @@ def run(prog, chk):
     author_wins(prog, chk)
     ordering(prog, chk)
     non_contributors(prog, chk)
+    degenerate_boxes(prog, chk)
+    use_translation(prog, chk)
 
 
 def _lit(body, t, i):
@@ -182,3 +187,60 @@ def non_contributors(prog, chk):
                             srcs.add(d[2].get("variant"))
                     ok = srcs <= {"get_element_bbox", "None"} and "get_element_bbox" in srcs
     chk.ob(ok, "A15.non-contributors", "OtherElement:text", oe.where(), "an element's contribution is its own bounding box (get_element_bbox); generated text events are not consulted", "the bounding box returned by OtherElement does not come only from get_element_bbox")
+
+
+def _is_zero(v):
+    try:
+        return v is not None and float(v) == 0.0
+    except (TypeError, ValueError):
+        return False
+
+
+def degenerate_boxes(prog, chk):
+    """a zero-width / zero-height intersection is still a box (a clipped horizontal line contributes its extent)"""
+    b = prog.body(BB + "::intersect")
+    chk.touch(b)
+    somes = {x for x, i, s in b.all_stmts() if "lhs" in s and s["lhs"][0] == 0 and not s["lhs"][1] and s["rv"].get("variant") == "Some"}
+    n = [0]
+
+    def subject(a, c):
+        for u, v in ((a, c), (c, a)):
+            k = op_const(v)
+            if k is not None and (_is_zero(k.get("float")) or k.get("int") == 0):
+                o = R.origin(b, u, carriers={})
+                if o[0] == "call" and "fn" in o[2] and Callee(o[2]["fn"]).path.split("::")[-1] in ("width", "height"):
+                    n[0] += 1
+                    return True
+        return False
+
+    for x, i, st in b.all_stmts():
+        rv = st.get("rv")
+        if rv and rv["k"] == "binop" and rv["op"] in ("Ge", "Le", "Eq", "Gt", "Lt", "Ne"):
+            subject(rv["a"], rv["b"])
+    chk.floor("A7.degenerate-box", n[0], 2, "comparison of an intersection's width()/height() with 0")
+    ok = bool(somes) and R.may_reach(b, somes, R.equality_assumption(b, subject))
+    chk.ob(ok, "A7.degenerate-box", "intersect", b.where(), "an intersection of zero width or height is still returned as a box (both size tests admit equality)", "BoundingBox::intersect returns None for a zero-width or zero-height intersection: a clipped horizontal/vertical line (or text anchor) stops contributing to the root extent")
+
+
+def use_translation(prog, chk):
+    """in get_clipped_bbox the use/reuse translation must be reachable when only one of x / y is present"""
+    b = prog.body("svgdx::context::TransformerContext::get_clipped_bbox")
+    chk.touch(b)
+    gets = {}
+    for (bb, t, c) in b.call_sites(R.path_endswith("SvgElement::get_attr")):
+        k = _lit(b, t, 1)
+        if k in ("x", "y"):
+            gets.setdefault(k, []).append(bb)
+    tr = {bb for (bb, t, c) in b.call_sites(R.path_endswith("BoundingBox::translated"))}
+    if not tr or set(gets) != {"x", "y"}:
+        chk.anchor_missing("A13.use-translation", f"get_clipped_bbox: translated() call or get_attr(\"x\"/\"y\") not found (found {sorted(gets)}, {len(tr)} translated calls)")
+        return
+    for absent in ("x", "y"):
+        assume = {bb: 0 for bb in gets[absent]}
+        other = "y" if absent == "x" else "x"
+        assume.update({bb: 1 for bb in gets[other]})
+        ok = R.may_reach(b, tr, R.option_assumption(b, assume))
+        chk.ob(ok, "A13.use-translation", f"get_clipped_bbox:only-{other}", b.where(), f"a <use>/<reuse> with `{other}` but no `{absent}` still has its bounding box translated", f"with `{absent}` absent the translation of a <use>/<reuse> bounding box is unreachable: `<use href=.. {other}=..>` contributes its target's untranslated box to the extent")
+    # sanity of the decider: with both absent the translation must be unreachable (otherwise the rule decides nothing)
+    both = {bb: 0 for k in gets for bb in gets[k]}
+    chk.ob(not R.may_reach(b, tr, R.option_assumption(b, both)), "A13.use-translation", "get_clipped_bbox:decider-sanity", b.where(), "decider sanity: with neither x nor y the translation is not reached", "the presence tests on x / y are not understood by the rule (translation reachable with both absent): rule cannot decide")
